@@ -41,6 +41,67 @@ def h_index_maps(ctx, d, q, batch):
         ctx.claim('batch_of_one_roundtrip', ctx.all_([ctx.eq(J1[0][m], I[m]) for m in range(d)]))
 
 
+def h_index_maps_layout(ctx, d, q, layout):
+    """A batch of two different symbolic multi-indices in Fortran order / as a
+    transposed view: the maps do not depend on the memory layout of the batch."""
+    N = 1 << q
+    rows = [_ivec(ctx, 'i', d), _ivec(ctx, 'j', d)]
+    for I in rows:
+        for k in range(d):
+            ctx.assume(ctx.ge(I[k], 0))
+            ctx.assume(ctx.lt(I[k], N))
+    A = np.array(rows)
+    if layout == 'F':
+        arg = np.asfortranarray(A)
+    elif layout == 'T':
+        arg = np.ascontiguousarray(A.T).T             # transposed view of a [d, samples] array
+    else:
+        arg = A
+    B = teneva.ind_tt_to_qtt(arg, N)
+    ctx.claim('shape', np.shape(B) == (2, d * q))
+    for t, I in enumerate(rows):
+        for m in range(d):
+            val = sum((B[t][m * q + k] * (1 << k) for k in range(q)), ctx.const(0))
+            ctx.claim('little_endian_expansion', ctx.eq(val, I[m]))
+    Bq = np.asfortranarray(B) if layout == 'F' else (np.ascontiguousarray(np.asarray(B).T).T if layout == 'T' else B)
+    J = teneva.ind_qtt_to_tt(Bq, q)
+    ctx.claim('roundtrip_tt_qtt_tt', ctx.all_([ctx.eq(J[t][m], rows[t][m]) for t in range(2) for m in range(d)]))
+
+
+def h_concrete_redundant_ranks(ctx):
+    """tt_to_qtt on tensors whose TT-ranks are larger than necessary (Y + Y,
+    zero-padded cores, ranks above the unfolding sizes): the bonds between modes
+    keep the given TT-ranks, values are preserved (real code, fixed inputs: the
+    factorisations of generic cores are not encodable)."""
+    ok_rank, ok_val = True, True
+    cases = []
+    Y = teneva.rand([4, 4, 4], 2, seed=1)
+    cases.append(teneva.add(Y, Y))
+    cases.append(teneva.rand([4, 4, 4], [1, 6, 7, 1], seed=2))
+    Z = teneva.rand([2, 2, 2, 2], [1, 3, 5, 3, 1], seed=3)
+    cases.append(Z)
+    P = [np.concatenate([G, np.zeros_like(G)], axis=2) if k < 2 else G for k, G in enumerate(teneva.rand([4, 2, 4], 2, seed=4))]
+    P[1] = np.concatenate([P[1], np.zeros_like(P[1])], axis=0)
+    P[2] = np.concatenate([P[2], np.zeros_like(P[2])], axis=0)
+    cases.append(P)
+    for T in cases:
+        n = [G.shape[1] for G in T]
+        qs = [int(np.log2(k)) for k in n]
+        Q = teneva.tt_to_qtt(T)
+        pos = 0
+        for k in range(len(T) - 1):
+            pos += qs[k]
+            ok_rank = ok_rank and Q[pos - 1].shape[2] == T[k].shape[2] and Q[pos].shape[0] == T[k].shape[2]
+        F = teneva.full(T)
+        Fq = teneva.full(Q).reshape(F.shape, order='F')
+        ok_val = ok_val and np.linalg.norm(Fq - F) <= 1e-8 * max(1., np.linalg.norm(F))
+        back = teneva.qtt_to_tt(Q, qs[0]) if len(set(qs)) == 1 else None
+        if back is not None:
+            ok_val = ok_val and np.linalg.norm(teneva.full(back) - F) <= 1e-8 * max(1., np.linalg.norm(F))
+    ctx.claim('bonds_between_modes_keep_tt_ranks', bool(ok_rank))
+    ctx.claim('values_preserved', bool(ok_val))
+
+
 def h_index_maps_rev(ctx, d, q):
     """Symbolic bit vector -> TT index -> bits."""
     b = _ivec(ctx, 'b', d * q)
@@ -184,6 +245,10 @@ def instances(tier):
         for batch in (False, True):
             out.append({'func': 'h_index_maps', 'params': {'d': d, 'q': q, 'batch': batch}})
         out.append({'func': 'h_index_maps_rev', 'params': {'d': d, 'q': q}})
+    for d, q in [(2, 1), (2, 2), (3, 1)]:
+        for layout in ('F', 'T'):
+            out.append({'func': 'h_index_maps_layout', 'params': {'d': d, 'q': q, 'layout': layout}})
+    out.append({'func': 'h_concrete_redundant_ranks', 'params': {}, 'opts': {'concrete_only': True}})
     for n in (3, 6):
         out.append({'func': 'h_non_power_of_two', 'params': {'n': n}})
     for n in (2 ** 17 + 1, 2 ** 30 + 1, 2 ** 40 - 1, 2 ** 52 + 1):
